@@ -588,7 +588,7 @@ func c20Scenarios(tier string) []Scenario {
 func init() {
 	register(&Property{ID: "C20", Level: "model_checking",
 		Technique: "stateless model checking of the real logger goroutine, producers and a filterer under the controlled scheduler (select-case choices explored); sequential enumeration of Log sequences against a reference ring",
-		Rule:      "sequential: capacities 1..4 (thorough ..64), every beginning of length 6 over 2 owners x 2 types (type values 1/2, 64/-1, 2^20/63) continued to 3N+2 entries, all 9 owner/type Filter selections after every entry, compared with 'the matching entries among the last N' (an immediate Filter may lag to an earlier prefix, after quiescence it must be exact); concurrent: 1-3 producers x 1-3 entries, a filterer calling Filter 1-2 times, N in 1..3, every schedule with at most P preemptions including every choice of the logger's select: each result must be the window of some prefix of the observed logging order, the final result exact, nobody blocked. distinct = distinct per-object operation orders / sequences",
+		Rule:      "sequential: capacities 1..4 (thorough ..64), every beginning of length 6 over 2 owners x 2 types (type values 1/2, 64/-1, 2^20/63) continued to 3N+2 entries, all 9 owner/type Filter selections after every entry, compared with 'the matching entries among the last N' (an immediate Filter may lag to an earlier prefix, after quiescence it must be exact); concurrent: 1-3 producers x 1-3 entries, a filterer calling Filter 1-2 times, N in 1..3, every schedule with at most P preemptions including every choice of the logger's select: each result must be the window of some prefix of the observed logging order, the final result exact, nobody blocked. distinct = distinct per-object operation orders / sequences ; every sequence of up to 4 (thorough 5) entries over 7 kinds of odd values (nil data, nil pointer, empty, zero, nil owner, negative types) at capacities 1..3",
 		Assumptions: []string{"code between two synchronisation operations is atomic", "logging order = order in which sends on the logger's channel complete (observed by the scheduler)"},
 		Scenarios:   c20Scenarios, QuickS: 100, ThoroughS: 900})
 }
